@@ -119,6 +119,35 @@ func runScenario(t *testing.T, rec *sim.Recorder, sc Scenario) {
 			t.Fatal(err)
 		}
 		defer c.Close()
+		if os.Getenv("VERIF_DEBUG_TXN") != "" {
+			for _, k := range []kmsg.Key{kmsg.EndTxn, kmsg.AddPartitionsToTxn, kmsg.InitProducerID, kmsg.Produce} {
+				k := k
+				c.ControlKey(int16(k), func(kreq kmsg.Request) (kmsg.Response, error, bool) {
+					c.KeepControl()
+					switch r := kreq.(type) {
+					case *kmsg.EndTxnRequest:
+						rec.Ev("dbg_endtxn", "txid", r.TransactionalID, "pid", r.ProducerID, "epoch", r.ProducerEpoch, "commit", r.Commit, "v", r.Version)
+					case *kmsg.AddPartitionsToTxnRequest:
+						rec.Ev("dbg_addparts", "v", r.Version, "n", len(r.Topics)+len(r.Transactions))
+					case *kmsg.InitProducerIDRequest:
+						rec.Ev("dbg_initpid", "pid", r.ProducerID, "epoch", r.ProducerEpoch)
+					case *kmsg.ProduceRequest:
+						if r.TransactionID != nil {
+							var ps []string
+							for _, rt := range r.Topics {
+								for _, rp := range rt.Partitions {
+									var b kmsg.RecordBatch
+									b.ReadFrom(rp.Records)
+									ps = append(ps, fmt.Sprintf("%x/%d pid=%d e=%d seq=%d n=%d", rt.TopicID[:2], rp.Partition, b.ProducerID, b.ProducerEpoch, b.FirstSequence, b.NumRecords))
+								}
+							}
+							rec.Ev("dbg_txnproduce", "txid", *r.TransactionID, "parts", ps, "v", r.Version)
+						}
+					}
+					return nil, nil, false
+				})
+			}
+		}
 		if os.Getenv("VERIF_DEBUG_FETCH") != "" {
 			c.ControlKey(int16(kmsg.Fetch), func(kreq kmsg.Request) (kmsg.Response, error, bool) {
 				c.KeepControl()
